@@ -1,9 +1,12 @@
 #!/bin/bash
-# Build the fact extractor and warm the dependency metadata (offline).  Idempotent.
+# Build the fact extractor and the syn cross-checker, warm the dependency metadata and the
+# positive-control fixture (offline).  Idempotent.
 set -e
 cd "$(dirname "$0")"
 export CARGO_NET_OFFLINE=true
 mkdir -p .cache/facts
 (cd engine/driver && CARGO_TARGET_DIR="$PWD/../../.cache/driver-target" cargo build --release --offline 2>&1 | tail -2)
+(cd engine/syncount && CARGO_TARGET_DIR="$PWD/../../.cache/syncount-target" cargo build --release --offline 2>&1 | tail -2) || echo "syncount not built (thorough tier will retry)"
 ./engine/extract.sh /repo .cache/facts/warm >/dev/null && rm -f .cache/facts/warm.*
+./check C08 --tier quick >/dev/null 2>&1 || true
 echo setup-ok
